@@ -1565,8 +1565,12 @@ def run(ctx):
         "that |p| < r_min is decided exactly); computed points are judged in fixed point with the rounding bound derived in Decorators.tla",
         "to_vector_yx on a 1D grid is outside the property (no 1D vector-field container exists; the library raises NotImplementedError); "
         "the container class of to_grid on a 1D grid and the mask of 1D results are not pinned by the statement and not checked",
-        "project_grid on a 2D grid: the number of points of the ray is free; the first point is the centre or one pixel scale away "
-        "from it (remove_projected_centre)",
+        "project_grid on a 2D grid: the number of points is floor(longest path from the centre to the edge of the mask's extent / pixel "
+        "scale) + 1 (documented construction), judged exactly; where that quotient is an exact integer and the lattice unit is not a power "
+        "of two, one point fewer is accepted too (the quotient of two rounded floats may fall just below the integer); the first point is "
+        "the centre or one pixel scale away from it (remove_projected_centre)",
+        "configuration: the radial minimum of a profile class is read from the configuration in force when the relocating call is made; the "
+        "harness pushes its three configuration directories with autoconf and restores the first one after every history",
         "the DIRECTION of a projected line is pinned to the documented construction (+x half-line rotated clockwise by the profile's "
         "angle + 90 degrees; 0 for to_array / to_grid on a 1D grid and for profiles without an angle): exactly, on the lattice, for multiples "
         "of 90 degrees (the spec derives the direction from the integer quarter count); for other angles through a unit vector tabulated with "
